@@ -12,13 +12,14 @@ def val(prim, n):
     return str(n) if prim == "int" else f'"s{n}"'
 
 
-def item_attr(it, prim, i, mode):
-    lit = {"l0": 0, "l1": 1, "l2": 2, "l3": 3, "ln1": -1}
-    if it in lit:
-        return f"#[literal({val(prim, lit[it])})]"
-    if it == "lK":
-        return "#[literal(K2)]"
+def item_attr(it, prim, i, mode, two=False):
+    lit = {"l0": 0, "l1": 1, "l2": 2, "l3": 3, "ln1": -1, "lg1": 1}
     ty = "i32" if prim == "int" else "StaticStr"
+    d = f"{ty}| " if two else ""       # with a second counterpart every literal / pattern is dedicated to the primitive
+    if it in lit:
+        return f"#[literal({d}{val(prim, lit[it])})]" + (" #[ghost(Other)]" if it == "lg1" else "")
+    if it == "lK":
+        return f"#[literal({d}K2)]"
     if it == "dl1":
         return f"#[literal({val(prim, 55)})] #[literal({ty}| {val(prim, 1)})]"
     if it == "dp13":
@@ -27,18 +28,21 @@ def item_attr(it, prim, i, mode):
         return f"#[pattern({p50})] #[pattern({ty}| {p13})]" + (f" #[into({{{val(prim, 70 + i)}}})]" if mode == "map" else "")
     pat = {"p13": "1..=3" if prim == "int" else '"s1" | "s3"', "p24": f"{val(prim, 2)} | {val(prim, 4)}", "ple1": "..=1", "pall": "_", "pK": "K4",
            "pn10": "-1..=0" if prim == "int" else '"s-1" | "s0"', "px13": "1..3"}[it]
-    return f"#[pattern({pat})]" + (f" #[into({{{val(prim, 70 + i)}}})]" if mode == "map" else "")
+    return f"#[pattern({d}{pat})]" + (f" #[into({{{val(prim, 70 + i)}}})]" if mode == "map" else "")
 
 
 def program(ci, c):
     prim, mode = c["prim"], c["mode"]
     ty = "i32" if prim == "int" else "StaticStr"
-    vs = " ".join(f"{item_attr(it, prim, i, mode)} V{i}," for i, it in enumerate(c["vs"], 1)) + f" #[literal({val(prim, 99)})] Z,"
+    two = "lg1" in c["vs"]
+    vs = " ".join(f"{item_attr(it, prim, i, mode, two)} V{i}," for i, it in enumerate(c["vs"], 1)) + f" #[literal({ty + '| ' if two else ''}{val(prim, 99)})] Z,"
+    other = "#[derive(Clone, Copy, Debug)] pub enum Other { " + " ".join(f"V{i}," for i, it in enumerate(c["vs"], 1) if it != "lg1") + " Z }" if two else ""
+    fo = "#[from_owned(Other)] " if two else ""
     instr, instrf = ("map_owned", "try_map_owned") if mode == "map" else ("from_owned", "try_from_owned")
     dflt = "_ => E::Z" if c["dflt"] == "value" else '_ => panic!("DEFAULT")'
     dfltf = "_ => Ef::Z" if c["dflt"] == "value" else "_ => Err(Er(0))?"
-    E = f"#[derive(Clone, Copy, Debug, o2o)] #[{instr}({ty}| {dflt})] pub enum E {{ {vs} }}"
-    Ef = f"#[derive(Clone, Copy, Debug, o2o)] #[{instrf}({ty}, Er| {dfltf})] pub enum Ef {{ {vs} }}"
+    E = f"#[derive(Clone, Copy, Debug, o2o)] #[{instr}({ty}| {dflt})] {fo}pub enum E {{ {vs} }}"
+    Ef = f"#[derive(Clone, Copy, Debug, o2o)] #[{instrf}({ty}, Er| {dfltf})] {fo}pub enum Ef {{ {vs} }}"
     names = [f"V{i}" for i in range(1, len(c["vs"]) + 1)] + ["Z"]
     show = lambda t: "fn name_%s(e: %s) -> &'static str { match e { %s } }" % (t.lower(), t, " ".join(f'{t}::{n} => "{n}",' for n in names))
     pv = (lambda e: f"({e}) as i64") if prim == "int" else (lambda e: f"({e})[1..].parse::<i64>().unwrap()")
@@ -53,7 +57,7 @@ def program(ci, c):
             run.append(f'{{ let p: {ty} = Ef::V{i}.try_into().unwrap(); println!("{{{{\\"case\\":{ci},\\"prop\\":\\"into\\",\\"f\\":true,\\"i\\":{i},\\"got\\":{{}}}}}}", {pv("p")}); }}')
             run.append(f'{{ let p: {ty} = Ef::V{i}.try_into().unwrap(); println!("{{{{\\"case\\":{ci},\\"prop\\":\\"rt\\",\\"f\\":true,\\"i\\":{i},\\"got\\":\\"{{}}\\"}}}}", match Ef::try_from(p) {{ Ok(e) => name_ef(e), Err(_) => "ERR" }}); }}')
     nl = "\n  "
-    return (f"pub mod c{ci} {{ use super::*;\npub type StaticStr = &'static str; pub const K2: i32 = 2; pub const K4: i32 = 4;\n{E}\n{Ef}\n{show('E')}\n{show('Ef')}\n"
+    return (f"pub mod c{ci} {{ use super::*;\npub type StaticStr = &'static str; pub const K2: i32 = 2; pub const K4: i32 = 4;\n{other}\n{E}\n{Ef}\n{show('E')}\n{show('Ef')}\n"
             f"pub fn run() {{\n  {nl.join(run)}\n}} }}")
 
 
